@@ -126,7 +126,41 @@ def run_case(case, session, F, exp):
             impl = cc.observe(df)
         except Exception as ex:
             exc = f"{type(ex).__name__}: {str(ex)[:160]}"
-    return impl, exc, exported, why
+    return impl, exc, exported, why, b
+
+
+def _work(chunk):
+    """worker process: run a chunk of cases on the implementation and render them as Coq terms"""
+    logging.disable(logging.WARNING)     # join() logs a warning for every `on=None`
+    from sqlframe.duckdb import DuckDBSession
+    import sqlframe.duckdb.functions as F
+    from sqlglot import expressions as exp
+    session = DuckDBSession()
+    try:
+        session._conn.execute("PRAGMA threads=1")
+    except Exception:
+        pass
+    out = []
+    for case in chunk:
+        impl, exc, exported, why, b = run_case(case, session, F, exp)
+        lin = rd.observe_lineage(case, session, F, b)
+        try:
+            term = rd.case_coq(case, lin, impl, exported)
+            err = None
+        except Exception as ex:
+            term, err = None, f"{type(ex).__name__}: {ex}"
+        out.append({"term": term, "render_error": err, "impl": impl, "exc": exc, "exported": exported != "None", "why": why,
+                    "lineage_error": lin.get("error")})
+    return out
+
+
+def run_cases_parallel(cases, workers=6):
+    from concurrent.futures import ProcessPoolExecutor
+    n = max(1, (len(cases) + workers * 4 - 1) // (workers * 4))
+    chunks = [cases[i:i + n] for i in range(0, len(cases), n)]
+    with ProcessPoolExecutor(max_workers=workers) as ex:
+        res = list(ex.map(_work, chunks))
+    return [r for ch in res for r in ch]
 
 
 def describe(case, impl, exc, r, extra=None):
@@ -159,14 +193,6 @@ def run(ctx: core.Ctx):
     # ---- proofs
     proved = ctx.prove([ctx.build + "/gen/C02Facts.v"] + ([core.COQ + "/props/C02.v"] if t1_ok else []), dep_theories=DEPS)
     # ---- T2/T3
-    from sqlframe.duckdb import DuckDBSession
-    import sqlframe.duckdb.functions as F
-    from sqlglot import expressions as exp
-    session = DuckDBSession()
-    try:
-        session._conn.execute("PRAGMA threads=1")
-    except Exception:
-        pass
     rnd = random.Random(ctx.seed)
     cases = gen.gen_cases(rnd, ctx.tier)
     # recordings: key -> PySpark's answer
@@ -185,18 +211,19 @@ def run(ctx: core.Ctx):
     def bump(h, k):
         hist[h][k] = hist[h].get(k, 0) + 1
 
-    for case in cases:
-        impl, exc, exported, why = run_case(case, session, F, exp)
-        lin = rd.observe_lineage(case, session, F)
-        try:
-            term = rd.case_coq(case, lin, impl, exported)
-        except Exception as ex:
-            ctx.broken("harness:render", f"{type(ex).__name__}: {ex} on {rd.case_str(case)}")
+    results = run_cases_parallel(cases)
+    for case, w in zip(cases, results):
+        if w["term"] is None:
+            ctx.broken("harness:render", f"{w['render_error']} on {rd.case_str(case)}")
             continue
-        items.append(term)
-        metas.append({"case": case, "impl": impl, "exc": exc, "exported": exported != "None", "why": why})
+        if w["lineage_error"] and not any(b_["name"] == "harness:lineage" for b_ in ctx.brokens):
+            ctx.broken("harness:lineage", f"{w['lineage_error']} on {rd.case_str(case)}")
+        impl, why = w["impl"], w["why"]
+        impl = (impl[0], [tuple(x) for x in impl[1]]) if impl else None
+        items.append(w["term"])
+        metas.append({"case": case, "impl": impl, "exc": w["exc"], "exported": w["exported"], "why": why})
         n_raise += impl is None
-        if impl is not None and exported == "None":
+        if impl is not None and not w["exported"]:
             n_unexportable += 1
             unexport_why[why] = unexport_why.get(why, 0) + 1
         bump("shape", case.get("shape", "?"))
